@@ -55,6 +55,10 @@ def src(module, refcode, *words):
     beh = refcode[7:8]
     if beh == "E":
         raise RuntimeError("fx src parser failure")
+    if beh == "A":
+        raise ModuleNotFoundError("No module named 'fx_optional_helper' (raised while parsing)")
+    if beh == "B":
+        raise ImportError("fx optional helper cannot be imported (raised while parsing)")
     if beh == "F":
         return None
     if beh == "D":
